@@ -1142,14 +1142,56 @@ func (c *Ctx) conds() (map[*ssa.BasicBlock]DNF, error) {
 	}()
 	m := map[*ssa.BasicBlock]DNF{}
 	order := rpo(c.Fn)
+	// Loops all of whose exits lead to one block: that block is reached exactly when the loop is entered (termination
+	// assumed), so the exit tests are not part of its condition.
+	singleExit := map[*ssa.BasicBlock]*Loop{} // exit target -> loop
+	for _, l := range naturalLoops(c.Fn) {
+		exits := l.exits()
+		if len(exits) == 0 {
+			continue
+		}
+		same := true
+		for _, e := range exits {
+			if e.To != exits[0].To {
+				same = false
+			}
+		}
+		if same {
+			if old, dup := singleExit[exits[0].To]; !dup || len(l.Blocks) > len(old.Blocks) {
+				singleExit[exits[0].To] = l
+			}
+		}
+	}
 	for i, b := range order {
 		if i == 0 {
 			m[b] = dnfTrue()
 			continue
 		}
 		var d DNF
+		loopDone := false
 		for _, p := range b.Preds {
 			if isBackEdge(p, b) {
+				continue
+			}
+			if l := singleExit[b]; l != nil && l.Blocks[p] {
+				if !loopDone {
+					loopDone = true
+					// condition of entering the loop: the header's non-loop predecessors
+					for _, hp := range l.Header.Preds {
+						if l.Blocks[hp] {
+							continue
+						}
+						hpc, ok := m[hp]
+						if !ok {
+							continue
+						}
+						for si, s := range hp.Succs {
+							if s == l.Header {
+								d = d.or(c.edgeCond(m, hp, si, hpc))
+							}
+						}
+					}
+				}
 				continue
 			}
 			pc, ok := m[p]
